@@ -155,6 +155,7 @@ var parserAlphabet = []string{
 	"", " ", "#", "a.", "a..b", ".a", "a.b.c.d.", "a[", "[0", "a[0", "{a:", "{a: b c}", "f(a b)", "f(", "'unclosed", "\"unclosed", "`unclosed", "`{bad json`", "\"bad\\xescape\"",
 	`'it\'s`, `'a\'`, `'x'`, `'abc' == 'abc'`, `'\'`, "\"a\\\"", "`\"x\\`", "`\\``", "foo[-]", "foo[:-]", "`seeded`", "\"bad\\qescape\"", "a[?b == 'c\\'d']", "'tail",
 	"1", "007", "1a", "0", "9_lives", " 1a", "aZ", "AZx", "a.Z9",
+	"`[\"a\", \"b\"]`", "{x: `[1, 2]`, y: `{\"k\": [3]}`}", "a | `[1, [2]]`[1]", "`{\"k\": {\"j\": 1}}`.k", "[`[1]`, `[1]`]",
 	"a = b", "a.b.c.d.e.f.g ? h", "a[1:2:3:4]", "@(a)", "a b", "a ]", "(a", "a)", "[-]", "a[99999999999999999999]", "!", "&", "a.'x'", "a\u0080", "\xff", "a | ", "[?a",
 }
 
@@ -180,6 +181,25 @@ func safeParse(p *jmespath.Parser, x string) (key string) {
 
 var globalDoc = `{"a":[{"k":2,"t":0},{"k":1,"t":1},{"k":3,"t":2}],"b":["b","a"]}`
 
+// scribble overwrites every element / member of a returned container in place.
+func scribble(v interface{}, depth int) {
+	if depth > 20 {
+		return
+	}
+	switch x := v.(type) {
+	case []interface{}:
+		for i := range x {
+			scribble(x[i], depth+1)
+			x[i] = "SCRIBBLED"
+		}
+	case map[string]interface{}:
+		for k := range x {
+			scribble(x[k], depth+1)
+			x[k] = "SCRIBBLED"
+		}
+	}
+}
+
 // globalOp performs one process-global operation and renders its outcome.
 func globalOp(mode string, xi int) string {
 	x := parserAlphabet[xi]
@@ -187,7 +207,11 @@ func globalOp(mode string, xi int) string {
 	json.Unmarshal([]byte(globalDoc), &doc)
 	if mode == "search" {
 		res, err, pn := impl.SearchOnce(x, doc)
-		return resKey(res, err, pn)
+		key := resKey(res, err, pn)
+		// a caller may do what it likes with a returned value: scribble over it, so that a value that is
+		// shared with later one-shot calls (a package-level AST cache handing out its literals) shows
+		scribble(res, 0)
+		return key
 	}
 	jp, cerr, cpn := impl.Compile(x)
 	switch {
